@@ -34,3 +34,65 @@ impl<T, N: ArrayLength> Slots<T, N> {
 
     pub open spec fn elems(&self) -> Seq<T> { Seq::new(N::n() as nat, |k: int| self.view()[k].unwrap()) }
 }
+
+// ---- whole-array moves into a longer / out of a whole array (append, prepend, pop, split, concat) ----
+// An output buffer MaybeUninit<GenericArray<T, L>> of L element slots, and a typed cursor into it (rule R-ptr in elements).
+pub struct OutBuf<T> { pub slots: Seq<Option<T>> }
+#[derive(Clone, Copy)]
+pub struct Cur { pub off: usize, pub stride: usize }
+
+impl<T> OutBuf<T> {
+    // MaybeUninit::<GenericArray<T, L>>::uninit()
+    #[verifier::external_body]
+    pub fn uninit(len: usize) -> (r: Self) ensures r.slots.len() == len, forall|k: int| 0 <= k < len ==> (#[trigger] r.slots[k]).is_none() { unimplemented!() }
+    // buf.as_mut_ptr() as *mut X: cursor at element 0, pointee spanning `stride` elements
+    pub fn as_mut_ptr(&self, stride: usize) -> (c: Cur) ensures c.off == 0, c.stride == stride { Cur { off: 0, stride } }
+    // ptr::write(cur as *mut GenericArray<T, K>, array): K elements, all inside the buffer, over slots that hold nothing
+    #[verifier::external_body]
+    pub fn write_array(&mut self, c: Cur, src: Seq<T>)
+        requires c.off + src.len() <= old(self).slots.len(), forall|k: int| c.off <= k < c.off + src.len() ==> (#[trigger] old(self).slots[k]).is_none(),
+        ensures final(self).slots.len() == old(self).slots.len(),
+            forall|k: int| 0 <= k < old(self).slots.len() ==> #[trigger] final(self).slots[k] == (if c.off <= k < c.off + src.len() { Some(src[k - c.off]) } else { old(self).slots[k] }),
+    { unimplemented!() }
+    // ptr::write(cur as *mut T, v)
+    #[verifier::external_body]
+    pub fn write_elem(&mut self, c: Cur, v: T)
+        requires c.off < old(self).slots.len(), old(self).slots[c.off as int].is_none(),
+        ensures final(self).slots == old(self).slots.update(c.off as int, Some(v)),
+    { unimplemented!() }
+    // buf.assume_init(): UB unless every slot is initialised
+    #[verifier::external_body]
+    pub fn assume_init(self) -> (r: Seq<T>)
+        requires forall|k: int| 0 <= k < self.slots.len() ==> (#[trigger] self.slots[k]).is_some(),
+        ensures r.len() == self.slots.len(), forall|k: int| 0 <= k < r.len() ==> #[trigger] r[k] == self.slots[k].unwrap(),
+    { unimplemented!() }
+}
+impl Cur {
+    // cur.add(k) / cur.offset(k): k pointees further
+    pub fn add(self, k: usize) -> (c: Cur) requires self.off + k * self.stride <= usize::MAX, ensures c.off == self.off + k * self.stride, c.stride == self.stride
+    { Cur { off: self.off + k * self.stride, stride: self.stride } }
+    // `as *mut X`: same address, new pointee extent
+    pub fn cast(self, stride: usize) -> (c: Cur) ensures c.off == self.off, c.stride == stride { Cur { off: self.off, stride } }
+}
+// a whole array wrapped in ManuallyDrop whose elements are moved out piecewise with ptr::read
+pub struct Whole<T> { pub slots: Seq<Option<T>> }
+impl<T> Whole<T> {
+    #[verifier::external_body]
+    pub fn new(a: Seq<T>) -> (r: Self) ensures r.slots.len() == a.len(), forall|k: int| 0 <= k < a.len() ==> #[trigger] r.slots[k] == Some(a[k]) { unimplemented!() }
+    pub fn as_ptr(&self) -> (c: Cur) ensures c.off == 0, c.stride == 1 { Cur { off: 0, stride: 1 } }
+    // ptr::read(cur as *const GenericArray<T, K>): K elements inside the array, each still owned here (else: duplicate)
+    #[verifier::external_body]
+    pub fn read_array(&mut self, c: Cur, k: usize) -> (r: Seq<T>)
+        requires c.off + k <= old(self).slots.len(), forall|j: int| c.off <= j < c.off + k ==> (#[trigger] old(self).slots[j]).is_some(),
+        ensures r.len() == k, forall|j: int| 0 <= j < k ==> #[trigger] r[j] == old(self).slots[c.off + j].unwrap(),
+            final(self).slots.len() == old(self).slots.len(),
+            forall|j: int| 0 <= j < old(self).slots.len() ==> #[trigger] final(self).slots[j] == (if c.off <= j < c.off + k { None } else { old(self).slots[j] }),
+    { unimplemented!() }
+    #[verifier::external_body]
+    pub fn read_elem(&mut self, c: Cur) -> (r: T)
+        requires c.off < old(self).slots.len(), old(self).slots[c.off as int].is_some(),
+        ensures r == old(self).slots[c.off as int].unwrap(), final(self).slots == old(self).slots.update(c.off as int, None),
+    { unimplemented!() }
+    // end of scope of the ManuallyDrop: whatever is still owned here leaks
+    pub fn scope_exit(&self) requires forall|j: int| 0 <= j < self.slots.len() ==> (#[trigger] self.slots[j]).is_none() {}
+}
